@@ -656,6 +656,11 @@ func c15AttrTables(d *dialectAPI, r *hx.Rand) []*schema.Table {
 		// the index SQLite itself creates (and names) for an inline UNIQUE constraint, as inspected
 		tc.AddIndexes(schema.NewUniqueIndex("sqlite_autoindex_attrs_checks_1").AddColumns(cb))
 	}
+	// an integer default beyond 64 bits (a decimal column), positive and negative
+	tc.AddColumns(
+		schema.NewColumn("wide").SetType(&schema.DecimalType{T: map[string]string{"mysql": "decimal", "postgres": "numeric", "sqlite": "numeric"}[d.name], Precision: 30}).SetDefault(&schema.Literal{V: "1000000000000000000000"}),
+		schema.NewColumn("wide_neg").SetType(&schema.DecimalType{T: map[string]string{"mysql": "decimal", "postgres": "numeric", "sqlite": "numeric"}[d.name], Precision: 30}).SetNull(true).SetDefault(&schema.Literal{V: "18446744073709551616"}),
+	)
 	out = append(out, tc)
 	// auto increment / identity / generated / on update / charset
 	t3 := schema.NewTable("attrs_special")
